@@ -298,3 +298,19 @@ add("so_add_dfcc", ["C06"], ["tu/sorter_add_dfcc.c"], "h_sorter_add_dfcc", mode=
     unwind=16, timeout=900, slice=1, strength="U", functions=["mtbl_sorter_add"],
     assumptions=["allocation, memcpy, the vector append and _mtbl_sorter_flush replaced by capture contracts (flush / chunk writing: groups so_chunk_*, so_add_ne*); key and value lengths <= UINT_MAX (larger ones stop at the function's own assert)",
                  "the spill rule is stated over the batch after the add: entry bytes + pointer vector bytes >= memory limit"])
+# ---------------------------------------------------------------- block-level half of writer.c under DFCC (any sizes)
+WB_ASSUME = ["callees replaced by capture contracts, one ghost record per callee (write_block: c20_write_block; builders: bb_*_dfcc; checksum C17; codecs C15; metadata_write: md_roundtrip; _write_all: c20_write_all)", "offsets and counters below 2^60 (no wrap)"]
+add("wr_datablock_dfcc", ["C10", "C09", "C01", "C18"], ["tu/writer_blk_dfcc.c", "$REPO/mtbl/varint.c"], "h_write_data_block_dfcc", mode="dfcc", enforce="_mtbl_writer_write_data_block/_mtbl_writer_write_data_block__spec",
+    replace=["_mtbl_writer_write_block/_mtbl_writer_write_block__cap", "block_builder_add/block_builder_add__cap", "free/free__cap"], unwind=16, timeout=900, slice=1, strength="U",
+    functions=["_mtbl_writer_write_data_block", "mtbl_varint_encode64"], assumptions=WB_ASSUME)
+add("wr_compress_dfcc", ["C12", "C09", "C01"], ["tu/writer_blk_dfcc.c", "$REPO/mtbl/varint.c"], "h_compress_block_dfcc", mode="dfcc", enforce="_mtbl_writer_compress_block/_mtbl_writer_compress_block__spec",
+    replace=["mtbl_compress/mtbl_compress__cap", "mtbl_compress_level/mtbl_compress_level__cap", "mtbl_crc32c/mtbl_crc32c__cap", "free/free__cap"], unwind=16, timeout=900, slice=1, strength="U",
+    functions=["_mtbl_writer_compress_block"], assumptions=WB_ASSUME + ["the codec reports success (failure stops at the function's assert: permitted loud stop)"])
+add("wr_finish_dfcc", ["C10", "C09", "C12", "C01", "C18"], ["tu/writer_blk_dfcc.c", "$REPO/mtbl/varint.c"], "h_finish_dfcc", mode="dfcc", enforce="_mtbl_writer_finish/_mtbl_writer_finish__spec",
+    replace=["_mtbl_writer_flush/_mtbl_writer_flush__cap", "result_handler_destroy/result_handler_destroy__cap", "block_builder_finish/block_builder_finish__cap", "block_builder_reset/block_builder_reset__cap",
+             "mtbl_crc32c/mtbl_crc32c__cap", "_mtbl_writer_write_block/_mtbl_writer_write_block__cap", "metadata_write/metadata_write__cap", "_write_all/_write_all__cap2", "free/free__cap"],
+    unwind=24, timeout=900, slice=1, strength="U", functions=["_mtbl_writer_finish"], assumptions=WB_ASSUME)
+add("wr_flush_dfcc", ["C09", "C10", "C01", "C12"], ["tu/writer_blk_dfcc.c", "$REPO/mtbl/varint.c"], "h_flush_dfcc", mode="dfcc", enforce="_mtbl_writer_flush/_mtbl_writer_flush__spec",
+    replace=["block_builder_empty/block_builder_empty__cap", "my_malloc/my_malloc__cap", "my_calloc/my_calloc__cap", "memcpy/memcpy__cap", "block_builder_finish/block_builder_finish__cap", "block_builder_reset/block_builder_reset__cap",
+             "threadpool_dispatch/threadpool_dispatch__cap", "_mtbl_writer_compress_block/_mtbl_writer_compress_block__cap", "_mtbl_writer_write_data_block/_mtbl_writer_write_data_block__cap"],
+    unwind=24, timeout=900, slice=1, strength="U", functions=["_mtbl_writer_flush"], assumptions=WB_ASSUME + ["thread pool dispatch is a capture contract (delivery itself: assumed contract of mtbl/threadpool.c, C13 not applicable)"])
